@@ -2,7 +2,7 @@ PROP = dict(
     id="C06",
     lean_modules=["TongoProofs.C06"],
     gen=["MinBits"],
-    spec_ops=("bs.spec",),
+    spec_ops=("bs.spec", "bs.cellspec"),
     rule="operation sequences of 20..200 random items over all 28 read/write/skip/grow/append/copy methods on "
          "capacities 0..2000 (boundaries over-weighted), widths 0..64 biased to 0/1/7/8/9/55..58/63/64, big-int widths "
          "1..257, unary up to 100, plus the same vocabulary on fresh and BOC-parsed cells with reference slots, and CopyRemaining after k NextRef for every reference count 0..4, every k, every bit-cursor alignment, with ResetCounters interleaved; "
